@@ -50,6 +50,7 @@ def make_daemon_fn(sim: Any, hid: str, c: dict[str, Any]):
 
     async def body(stopped, uid=None, **_):
         sim.rec('d.enter', h=hid, uid=uid)
+        enter_seq = sim.recorder.events[-1]['seq']
         how = 'returned'
         try:
             if c['reaction'] == 'selfexit':      # returns on its own after a while; notes the stop flag if it comes first
@@ -72,6 +73,10 @@ def make_daemon_fn(sim: Any, hid: str, c: dict[str, Any]):
                     # 'ignore': swallows cancellation and keeps going
         except asyncio.CancelledError:
             if how != 'cancelled':
+                # (cancelled while it still waited for the flag: with no backoff the flag is raised and the cancellation thrown in one step, the
+                # function cannot run in between -- it looks at the flag now)
+                if stopped and not any(e_['ev'] == 'd.flagseen' and e_.get('h') == hid and e_.get('uid') == uid and e_['seq'] > enter_seq for e_ in sim.recorder.events[-50:]):
+                    sim.rec('d.flagseen', h=hid, uid=uid, reasons=str(stopped.reason))
                 sim.rec('d.cancel', h=hid, uid=uid); how = 'cancelled'
             raise
         finally:
